@@ -117,6 +117,18 @@ CHECKS = {
         note="Aware datetimes whose UTC instant lies outside the Instant range (within 18 h of datetime.min/max) cannot convert and are not claimed.",
         technique="TLA+ correspondence predicates checked by TLC + TLC trace validation of conversions",
     ),
+    "C16": dict(
+        category="model_checking",
+        text=("WeekYear.tla defines a regular week-year start declaratively (the unique first-day-of-week within minDays of the calendar "
+              "year start) and weekday navigation; TLC proves the closed form equals the declarative definition for all 49 rules x all "
+              "year-start weekdays and that navigation is minimal; for all 71 rules, windows of consecutive days around year starts in "
+              "every calendar are observed through the real rule objects and TLC checks the round trip, week <= weeks-in-week-year, "
+              "advance every seven days from the first day of week, the declarative week number for regular rules, ISO vs stdlib "
+              "isocalendar, next/previous(-or-same) and the n-th-weekday-of-month constructor."),
+        design_ref="DESIGN.md section 5 C16",
+        note="Calendar year starts are read from the calculators (cross-checked against Calendars.tla for arithmetic calendars); BCL-style irregular rules are held to the self-consistency clauses, their exact shape is a reference clause.",
+        technique="TLA+ declarative week-year definition checked by TLC + TLC trace validation of per-day observations",
+    ),
     "C18": dict(
         category="model_checking",
         text=("Intervals.tla defines DateInterval/Interval operations and TLC proves they are the set operations on all pairs over a "
